@@ -5,6 +5,9 @@
    concurrent collector, or anybody after a SIGKILL of the writer at that point, finds on disk.
    The reader `read_all_from_file` is the REPAIRED MmapedDict.read_all_values_from_file (fixes/C11-empty-file.diff:
    a 0-byte file holds no entries); `read_all_from_file_orig` is the pinned source, refuted below.
+   close() is an operation with its own (empty) effect list `close_effects`; `wtrace` is the trace of a writer whose
+   forked children close the handles they inherited in between (C11_prefix_forked); `read_listed` is the collector's
+   read of one listed file, which may have vanished since the listing (the two C11_vanished theorems).
    Granularity: one slice assignment is one atomic effect (trusted: a slice write to a shared mapping is observed
    whole).  Strength: partial in that sense only; all histories, all cuts. *)
 From V Require Import lib.PyBase model.MmapDict proofs.MmapDictProofs.
@@ -72,6 +75,58 @@ Theorem C11_value_update_exact : forall es p pre junk k x pos,
 Proof. exact write_value_at. Qed.
 Print Assumptions C11_value_update_exact.
 
+(* close() has no file effect, whatever the handle: the file after close() is the file before it.  close() is also run
+   by a forked child on the handles it inherited (values.py, pid change) while the parent is still a live writer of the
+   same file, so anything else would pull the file from under the parent's mapping. *)
+Theorem C11_close_keeps_file : forall (h : handle) (f : fstate), apply_effects f (close_effects h) = Ok f.
+Proof. exact close_keeps_file. Qed.
+Print Assumptions C11_close_keeps_file.
+
+(* one writer and forked children: ws interleaves the writer's own operations with Fork (a child inherits a copy of
+   the handle as it is then) and CloseInherited (the oldest child closes its - possibly stale - copy).  Every cut of
+   the whole effect trace is a prefix state of the writer's OWN operations, exactly as in C11_prefix. *)
+Theorem C11_prefix_forked : forall isz pg, 8 <= isz -> 4 <= pg -> forall ws tr,
+  Forall wf_op (own_ops ws) -> 8 + total (spec (own_ops ws)) < 2147483648 -> wtrace isz ws = Ok tr ->
+  forall n, (1 <= n)%nat ->
+  exists bn m infl,
+    cut n tr = Ok (Some bn) /\ (m <= length (own_ops ws))%nat /\
+    read_all_from_file pg bn = Ok (spec (firstn m (own_ops ws)) ++ infl) /\
+    inflight_ok [] (firstn m (own_ops ws)) (nth_error (own_ops ws) m) infl /\
+    (exists h' tr' b', open_ isz (Some bn) = Ok (h', tr') /\ apply_effects (Some bn) tr' = Ok (Some b') /\
+                       Rep isz b' h' (spec (firstn m (own_ops ws)) ++ infl)) /\
+    ((n = 1%nat /\ bn = []) \/ 8 <= len bn).
+Proof.
+  intros isz pg Hi Hp ws tr Hwf Hb Htr.
+  apply (cuts_spec isz pg Hi Hp (own_ops ws) tr Hwf Hb). apply (wcuts_spec isz pg Hi Hp ws tr Hwf Hb Htr).
+Qed.
+Print Assumptions C11_prefix_forked.
+
+(* the same from any represented state, with any set of inherited copies already around *)
+Theorem C11_prefix_forked_from : forall isz pg, 8 <= isz -> 4 <= pg -> forall ws b h inh es,
+  Rep isz b h es -> Forall wf_op (own_ops ws) -> 8 + total (spec_from es (own_ops ws)) < 2147483648 ->
+  exists h' inh' tr b',
+    wrun_from isz (Some b, h, inh) ws = Ok (Some b', h', inh', tr) /\
+    apply_effects (Some b) tr = Ok (Some b') /\ Rep isz b' h' (spec_from es (own_ops ws)) /\
+    (forall n, exists bn m infl,
+        apply_effects (Some b) (firstn n tr) = Ok (Some bn) /\ (m <= length (own_ops ws))%nat /\
+        Cut isz bn (spec_from es (firstn m (own_ops ws)) ++ infl) /\
+        inflight_ok es (firstn m (own_ops ws)) (nth_error (own_ops ws) m) infl).
+Proof. exact wrun_from_spec. Qed.
+Print Assumptions C11_prefix_forked_from.
+
+(* a file that vanished between the collector's listing and its read (f = None) is skipped exactly when it is a live
+   gauge file - typ = 'gauge' and parts[1] starts with 'live', the files mark_process_dead removes - ... *)
+Theorem C11_vanished_live_tolerated : forall pg s, read_listed pg S_GAUGE (S_LIVE ++ s) None = Ok [].
+Proof. exact vanished_live_ok. Qed.
+Print Assumptions C11_vanished_live_tolerated.
+
+(* ... and fails the scrape otherwise (the data of a counter, histogram, summary or non-live gauge file is never
+   dropped silently) *)
+Theorem C11_vanished_other_raises : forall pg typ p1,
+  ~ (typ = S_GAUGE /\ exists s, p1 = S_LIVE ++ s) -> read_listed pg typ p1 None = Err OSError.
+Proof. exact vanished_other_raises. Qed.
+Print Assumptions C11_vanished_other_raises.
+
 (* F8: with the pinned reader the statement is false at the first cut of EVERY history: after open(path, 'a+b') and
    before truncate the file has size 0 and read_all_values_from_file raises struct.error (which fails the scrape) *)
 Theorem C11_prefix_orig_refuted : forall isz pg, 8 <= isz -> 4 <= pg -> forall tr ops,
@@ -107,3 +162,22 @@ Proof.
   split; [repeat constructor|]. split; [vm_compute; reflexivity|].
   vm_compute. repeat split; reflexivity.
 Qed.
+
+(* non-vacuity: the five live modes of Gauge._MULTIPROC_MODES are tolerated, the five others and the other file types
+   are not; a forked child's close between two appends of the writer leaves the trace of the writer alone *)
+Example C11_example_vanish :
+  (* liveall livemin livemax livesum livemostrecent *)
+  Forall (fun m => read_listed 4096 S_GAUGE m None = Ok [])
+    [[108;105;118;101;97;108;108]; [108;105;118;101;109;105;110]; [108;105;118;101;109;97;120];
+     [108;105;118;101;115;117;109]; [108;105;118;101;109;111;115;116;114;101;99;101;110;116]] /\
+  (* all min max sum mostrecent *)
+  Forall (fun m => read_listed 4096 S_GAUGE m None = Err OSError)
+    [[97;108;108]; [109;105;110]; [109;97;120]; [115;117;109]; [109;111;115;116;114;101;99;101;110;116]] /\
+  (* counter_<pid>.db: typ = counter, parts[1] = '<pid>.db' *)
+  read_listed 4096 [99;111;117;110;116;101;114] [55;55;55;46;100;98] None = Err OSError.
+Proof. vm_compute. repeat constructor. Qed.
+
+Example C11_example_forked :
+  wtrace 65536 [Own (Write [97] [1;2;3;4;5;6;7;8] zero8); Fork; Own (ReadV [98]); CloseInherited; Own (ReadV [99])]
+  = trace 65536 [Write [97] [1;2;3;4;5;6;7;8] zero8; ReadV [98]; ReadV [99]].
+Proof. vm_compute. reflexivity. Qed.
